@@ -1,7 +1,15 @@
 //! One module per property area. Each `run_case` returns None when the case kind is not its own.
 //! To add an area: create harness/src/ext/<area>.rs, add `pub mod <area>;` and one line below.
+pub mod cmd;
+pub mod dump;
+pub mod reserve;
+pub mod sutoton;
 
 pub fn run_case(f: &[String]) -> String {
     // if let Some(r) = area::run_case(f) { return r; }
+    if let Some(r) = dump::run_case(f) { return r; }
+    if let Some(r) = reserve::run_case(f) { return r; }
+    if let Some(r) = sutoton::run_case(f) { return r; }
+    if let Some(r) = cmd::run_case(f) { return r; }
     format!("UNKNOWN-KIND:{}", f[0])
 }
